@@ -1388,6 +1388,8 @@ func (c *child) kill() {
 // runScript feeds one script (from its init line to the line before the next init) to the worker
 // and returns the output lines; doubt = the worker could not tell on which side of the tx request
 // timeout an op fell (the script is then run again).
+var hungOps int
+
 func runScript(c **child, lines []string) (out []string, doubt bool) {
 	dead := false
 	for _, line := range lines {
@@ -1406,9 +1408,19 @@ func runScript(c **child, lines []string) (out []string, doubt bool) {
 		io.WriteString((*c).in, op+"\n")
 		var res string
 		ok := false
+		timedOut := false
+		// an op that gets no answer: the worker hangs (a deadlock in the real code, say). The first few cost 15 s of
+		// harness time each, after that 3 s: an implementation that hangs on every other script must not keep a
+		// quick check busy for half an hour
+		limit := 15 * time.Second
+		if hungOps >= 3 {
+			limit = 3 * time.Second
+		}
 		select {
 		case res, ok = <-(*c).lines:
-		case <-hx.After(60 * time.Second):
+		case <-hx.After(limit):
+			hungOps++
+			timedOut = true
 		}
 		if ok {
 			if strings.HasSuffix(res, " #timing-doubt") {
@@ -1427,6 +1439,9 @@ func runScript(c **child, lines []string) (out []string, doubt bool) {
 		text := strings.ReplaceAll((*c).firstPanicLine(), " ", "_")
 		if len(text) > 160 {
 			text = text[:160]
+		}
+		if timedOut {
+			text = "HUNG:the_op_got_no_answer_(the_node_is_blocked,_e.g._on_its_own_mutex);_worker_killed"
 		}
 		os.Remove((*c).errF.Name())
 		(*c).errF.Close()
